@@ -32,6 +32,7 @@ import PyomaVerif.Ops.BuildHank
 import PyomaVerif.Ops.C07Rect
 import PyomaVerif.Ops.MultiSetup
 import PyomaVerif.Ops.C15X
+import PyomaVerif.Ops.SsiArgs
 /-! Line-protocol driver: one JSON object per line in, one JSON value per line out. -/
 open Lean PV PV.Codec
 
@@ -51,6 +52,7 @@ def allOps : List (String × (Json → Except String Json)) :=
   ++ PV.Ops.C13M.ops
   ++ PV.Ops.MultiSetup.ops
   ++ PV.Ops.C15X.ops
+  ++ PV.Ops.SsiArgs.ops
 
 def handle (line : String) : String :=
   match Json.parse line with
